@@ -3665,6 +3665,16 @@ def pack_objects_to_data(
       progress: Optional progress reporting callback
     Returns: Tuples with (type_num, hexdigest, delta base, object chunks)
     """
+    # An object listed twice is written once (as git pack-objects does): the
+    # header count and the index, which is keyed by name, must agree.
+    seen_ids: set[ObjectID] = set()
+    unique_objects = []
+    for entry in objects:
+        obj = entry[0] if isinstance(entry, tuple) else entry
+        if obj.id not in seen_ids:
+            seen_ids.add(obj.id)
+            unique_objects.append(entry)
+    objects = unique_objects  # type: ignore[assignment]
     count = len(objects)
     if deltify is None:
         # PERFORMANCE/TODO(jelmer): This should be enabled but the python
